@@ -2,6 +2,7 @@
 From Coq Require Import List Bool ZArith String.
 From LLIR Require Import Model.MetadataIDs Gen.Printers Gen.FieldFlow.
 From LLIR Require Import Proofs.MetadataIDsProofs Proofs.MetadataFieldProofs Proofs.FieldFlowProofs.
+From LLIR Require Model.Skeleton Proofs.SkeletonProofs.
 Import ListNotations.
 Local Open Scope Z_scope.
 
@@ -48,3 +49,33 @@ Proof. exact every_md_field_is_translated. Qed.
 
 Example C17_example_sparse_ids : assign_md_ids [-1; 3; -1; 0; -1] = Ok [1; 3; 2; 0; 4].
 Proof. vm_compute. reflexivity. Qed.
+
+(* references share node identity, on the module-level skeleton of the translator (Model/Skeleton.v: any number
+   of top-level entities, any fair map order): in an accepted module a metadata reference !N or !name written
+   anywhere -- in another metadata definition (forward, backward, self and mutual references alike: the index is
+   complete before any reference is resolved), in a global, a function or an attribute group -- denotes exactly
+   one entry of the index, the definition numbered N (resp. named name); two references with the same ID
+   therefore denote the same definition *)
+Theorem C17_md_ref_is_def : forall (o : Skeleton.oracle), Skeleton.fair o -> forall sort_idents l m old,
+  Skeleton.index_defs (Skeleton.number_globals l 0) [] = Skeleton.Ok old ->
+  Skeleton.translate o sort_idents l = Skeleton.Ok m ->
+  forall n i t u, n <> Skeleton.NComdat -> Skeleton.get old n i = Some t -> In u (Skeleton.t_uses t) ->
+  Skeleton.u_ns u = Skeleton.NMeta ->
+  exists d, In (Skeleton.NMeta, Skeleton.u_id u, d) old /\
+            forall e, In e old -> SkeletonProofs.key_of e = (Skeleton.NMeta, Skeleton.u_id u) -> e = (Skeleton.NMeta, Skeleton.u_id u, d).
+Proof.
+  intros o Hf s l m old Hi Ht n i t u Hn Hg Hu Hm.
+  destruct (SkeletonProofs.use_is_def_module o Hf s l m old Hi Ht n i t u Hn Hg Hu) as [d Hd]; [rewrite Hm; discriminate|].
+  rewrite Hm in Hd. exists d. exact Hd.
+Qed.
+(* a reference to a metadata ID that no definition carries is an error, never a fresh empty node *)
+Example C17_undefined_md_ref_rejected :
+  Skeleton.translate SkeletonProofs.id_oracle (fun l => l)
+    [SkeletonProofs.mk Skeleton.NMeta (Skeleton.INum 0) Skeleton.KPlain [{| Skeleton.u_ns := Skeleton.NMeta; Skeleton.u_id := Skeleton.INum 1 |}]] = Skeleton.Err.
+Proof. reflexivity. Qed.
+(* a self-reference and a forward reference are accepted *)
+Example C17_cyclic_md_refs_accepted :
+  SkeletonProofs.is_ok (Skeleton.translate SkeletonProofs.id_oracle (fun l => l)
+    [SkeletonProofs.mk Skeleton.NMeta (Skeleton.INum 0) Skeleton.KPlain [{| Skeleton.u_ns := Skeleton.NMeta; Skeleton.u_id := Skeleton.INum 0 |}; {| Skeleton.u_ns := Skeleton.NMeta; Skeleton.u_id := Skeleton.INum 1 |}];
+     SkeletonProofs.mk Skeleton.NMeta (Skeleton.INum 1) Skeleton.KPlain [{| Skeleton.u_ns := Skeleton.NMeta; Skeleton.u_id := Skeleton.INum 0 |}]]) = true.
+Proof. reflexivity. Qed.
